@@ -32,6 +32,10 @@ def _hier_grid(kind, a, b):
     name, arg = kind
     if name == "highorder":
         return G.GlobalHighOrderGrid(a, b, boundary=True, max_degree=arg[0], split_up=arg[1]), arg[0]
+    if name == "highorder_nb":      # no boundary points; arg = (max_degree, split_up, modified_basis)
+        return G.GlobalHighOrderGrid(a, b, boundary=False, max_degree=arg[0], split_up=arg[1], modified_basis=arg[2]), arg[0]
+    if name == "bspline_nb_mod":    # hierarchical B-splines without boundary points, modified basis
+        return G.GlobalBSplineGrid(a, b, boundary=False, modified_basis=True, p=arg), 1
     if name == "lagrange":
         return G.GlobalLagrangeGrid(a, b, boundary=True, p=arg), arg
     if name == "bspline":
@@ -39,6 +43,7 @@ def _hier_grid(kind, a, b):
     raise ValueError(kind)
 
 
+HIER_NB = [("bspline_nb_mod", 1), ("bspline_nb_mod", 3), ("highorder_nb", (3, False, False)), ("highorder_nb", (3, False, True)), ("highorder_nb", (2, True, False)), ("highorder_nb", (2, True, True))]
 HIER = [("highorder", (2, True)), ("highorder", (3, True)), ("highorder", (5, True)), ("highorder", (5, False)), ("highorder", (4, False)),
         ("lagrange", 1), ("lagrange", 2), ("lagrange", 3), ("bspline", 1), ("bspline", 3)]
 
@@ -89,15 +94,21 @@ def _trap_case(c):
     return fails, out
 
 
-def _ref_highorder(pts, a, b, max_degree):
+def _ref_highorder(pts, a, b, max_degree, boundary=True, modified=False):
     """reference model of the moment-matching rule (split_up=False): for d = 1, 2, ... the weights
     w_d = argmin sum w_i^2 / t_i  s.t.  sum w_i x_i^k = int x^k (k <= d)   (t = trapezoidal weights), i.e. sqrt(t) * (min-norm solution);
     the rule keeps the last d (<= max_degree, < number of points) before the first w_d with a negative weight.
     Returns (weights, degree, ambiguous) - ambiguous when a weight of some w_d is zero up to rounding, so the sign test can go either way."""
     from numpy.polynomial import legendre
     x = 2.0 * (np.asarray(pts, dtype=float) - a) / (b - a) - 1.0
-    t = np.asarray(hats.trapezoid_weights([float(v) for v in x], boundary=True, modified=False), dtype=float)
-    best, D, amb = t * (b - a) / 2.0, 1, False
+    t = np.asarray(hats.trapezoid_weights([float(v) for v in x], boundary=boundary, modified=modified), dtype=float)
+    if not boundary:
+        # rule on the inner points only; the trapezoidal weights are renormalised so that constants are integrated exactly
+        x = x[1:-1]
+        t = t * 2.0 / np.sum(t)
+    best, D, amb = t * (b - a) / 2.0, (1 if boundary or modified else 0), False
+    if np.min(t) <= 0:
+        return best, D, True      # the weighted inner product of the rule is not positive definite: no demand beyond the fallback
     d = 1
     while d < len(x) and d <= max_degree:
         V = legendre.legvander(x, d).T                      # (d+1) x n
@@ -115,16 +126,62 @@ def _ref_highorder(pts, a, b, max_degree):
     return best, D, amb
 
 
+def _highorder_nb(kind, g, f, order, pts, lv, a, b, key):
+    """high-order rule WITHOUT boundary points (plain / modified basis): constants always, linear functions with the modified basis
+    (>= 2 inner points), higher degrees as far as the reference model of the rule reaches them"""
+    deg, split, mod = kind[1]
+    fails = []
+    try:
+        g.set_grid([pts], [lv])
+        val = np.asarray(g.integrate(f, [max(lv)], np.array([a]), np.array([b])), dtype=float).ravel()
+        w = np.asarray(g.weights[0], dtype=float)
+    except Exception as e:
+        return [fail("rule_raises", "points %r: %s: %s" % (pts, type(e).__name__, str(e)[:100]), dict(key, exception=type(e).__name__))], ("exc", type(e).__name__)
+    ninner = len(pts) - 2
+    ref = _ref_highorder(pts, a, b, order, boundary=False, modified=mod)
+    if not split and not ref[2] and (len(w) != len(ref[0]) or np.max(np.abs(w - ref[0])) > 1e-9 * (b - a)):
+        fails.append(fail("weights_equal_moment_matching_reference", "points %r: weights %r, reference (degree %d) %r" % (pts, list(w), ref[1], list(ref[0])), key))
+    degs = []
+    for q in range(order + 1):
+        ex = _exact(q, a, b)
+        ok = abs(val[q] - ex) <= 1e-9 * max(1.0, abs(a), abs(b)) ** q * (b - a)
+        degs.append(ok)
+        demanded = q == 0 or (q == 1 and mod and ninner >= 2) or (q <= ref[1] and not ref[2])
+        if demanded and not ok:
+            fails.append(fail("polynomial_exactness", "points %r: integral of x^%d is %r, exact %r" % (pts, q, val[q], ex),
+                              dict(key, degree=("constant" if q == 0 else "linear" if q == 1 else "higher"))))
+            break
+    return fails, tuple(degs)
+
+
 def _hier_case(c):
     from sparseSpACE.Function import CustomFunction
     pts, lv, a, b = c["points"], c["levels"], c["a"], c["b"]
     fails = []
     out = []
     m = trees.is_complete_level(pts, a, b)
-    for kind in HIER:
+    for kind in HIER + (HIER_NB if len(pts) >= 3 else []):
         key = {"rule": kind[0], "order": str(kind[1])}
         g, order = _hier_grid(kind, a, b)
         f = CustomFunction(lambda x: [float(x[0]) ** k for k in range(order + 1)], output_length=order + 1)
+        if kind[0] == "bspline_nb_mod":
+            # constants on every tree; linear functions from two inner points on (the level-1 function of the modified hierarchical
+            # basis is the constant: x needs BOTH level-2 points - recorded in the key, the other trees are a known finding)
+            g.set_grid([pts], [lv])
+            val = np.asarray(g.integrate(f, [max(lv)], np.array([a]), np.array([b])), dtype=float).ravel()
+            both = list(lv).count(2) == 2
+            for q in ((0, 1) if len(pts) >= 4 else (0,)):
+                if abs(val[q] - _exact(q, a, b)) > 1e-9 * max(1.0, abs(a), abs(b)) ** q * (b - a):
+                    fails.append(fail("polynomial_exactness", "points %r: integral of x^%d is %r, exact %r" % (pts, q, val[q], _exact(q, a, b)),
+                                      dict(key, degree=("constant" if q == 0 else "linear"), both_level2_points=both)))
+                    break
+            out.append(tuple(round(float(v), 9) for v in val))
+            continue
+        if kind[0] == "highorder_nb":
+            fs, o = _highorder_nb(kind, g, f, order, pts, lv, a, b, key)
+            fails.extend(fs)
+            out.append(o)
+            continue
         g.set_grid([pts], [lv])
         val = np.asarray(g.integrate(f, [max(lv)], np.array([a]), np.array([b])), dtype=float).ravel()
         degs = []
